@@ -65,8 +65,8 @@ CHECKS = {
         design="DESIGN.md §4 C07",
     ),
     "C13": dict(
-        rules="R13.1-R13.10",
-        what="blockers never reach the ignore logic; suppressed-by-ignore implies recorded-as-used, only for enabled codes, and nothing else records; decision order of is_error_code_enabled (explicit disable, explicit enable, parent disabled); who may append to the error map; exit status truth table over (message, non-note, blockers, install override) and its data-flow to sys.exit; generators of diagnostics that bypass is_error_code_enabled are guarded by their own code not being disabled (truth table over the guard's atoms)",
+        rules="R13.1-R13.11",
+        what="blockers never reach the ignore logic; suppressed-by-ignore implies recorded-as-used, only for enabled codes, and nothing else records; decision order of is_error_code_enabled (explicit disable, explicit enable, parent disabled); who may append to the error map; exit status truth table over (message, non-note, blockers, install override) and its data-flow to sys.exit; generators of diagnostics that bypass is_error_code_enabled are guarded by their own code not being disabled (truth table over the guard's atoms); the only-once slot is claimed only by recorded messages; notes next to coded errors carry a code",
         quant="programs x ignore placements x code selections",
         technique="CFG must-pass / reachability, guard chains, who-may-call, abstract evaluation of the exit-status assignments",
         note="Exactness of the delta for every program (origin spans, duplicate removal, note attachment) is value-level and not decided.",
